@@ -210,3 +210,46 @@ def loop_fallthrough(root, loop):
             if isinstance(blk, list) and loop in blk:
                 return blk[blk.index(loop) + 1:]
     return []
+
+
+def inline_simple_helpers(ix, f, depth=2, root=None):
+    """a copy of f's body in which calls `self.h(a, ..)` / `cls.h(a, ..)` of a method h of the same class that consists of one `return <expr>`
+    are replaced by that expression with the parameters substituted (what "extract a predicate / an accessor" turns an inline test into)"""
+    import copy
+    if f.cls is None or depth <= 0:
+        return root if root is not None else f.node
+
+    class _Inl(ast.NodeTransformer):
+        def visit_Call(self, node):
+            self.generic_visit(node)
+            fn = node.func
+            if not (isinstance(fn, ast.Attribute) and isinstance(fn.value, ast.Name) and fn.value.id in ("self", "cls") and not node.keywords):
+                return node
+            h = f.cls.find_method(fn.attr)
+            if h is None or h is f or isinstance(h.node, ast.Lambda):
+                return node
+            body = [s for s in h.node.body if not (isinstance(s, ast.Expr) and isinstance(s.value, ast.Constant))]
+            # one `return <expr>`, possibly after single-assignment lets (`key = self._settings.registry_key`)
+            lets = body[:-1]
+            if not body or not isinstance(body[-1], ast.Return) or body[-1].value is None or len(lets) > 3 or not all(
+                    isinstance(l_, ast.Assign) and len(l_.targets) == 1 and isinstance(l_.targets[0], ast.Name) for l_ in lets):
+                return node
+            ps = [p for p in h.params() if p not in ("self", "cls")]
+            if len(ps) != len(node.args) or h.node.args.vararg or h.node.args.kwarg:
+                return node
+            m = dict(zip(ps, node.args))
+            body = [body[-1]]
+
+            class _Sub(ast.NodeTransformer):
+                def visit_Name(self, n):
+                    if isinstance(n.ctx, ast.Load) and n.id in m:
+                        return copy.deepcopy(m[n.id])
+                    return n
+            for l_ in lets:
+                if l_.targets[0].id in m:
+                    return node
+                m[l_.targets[0].id] = _Sub().visit(copy.deepcopy(l_.value))
+            return ast.copy_location(_Sub().visit(copy.deepcopy(body[0].value)), node)
+    new = _Inl().visit(copy.deepcopy(root if root is not None else f.node))
+    ast.fix_missing_locations(new)
+    return new
